@@ -1,6 +1,6 @@
 (* case lines (util/json.c):
      find <bufhex> <keyhex>                 -> ok <offset> | fault | assert | fuel
-        model of json_find(buf, buf+len, key) with the tables regenerated from the C text
+        JsonRepo.json_find_c: model of json_find(buf, buf+len, key), tables regenerated from the C text
      old find <bufhex> <keyhex>             -> same, for the code before the two repairs
      spec find <bufhex> <keyhex> <doc>      -> ok <offset> | spec-render-mismatch | spec-not-wf
         <doc> is the abstract value with its layout; the spec's render of it must be exactly
@@ -75,15 +75,14 @@ let parse_doc (s : string) : n list * jvalue * n list =
   if !i <> String.length s then raise Bad_doc;
   (lead, v, trail)
 
-let run_find fw fe b k =
+let run_find old b k =
   show_res (fun o -> string_of_int (int_of_nat o))
-    (json_find_m json_numchars json_wsbytes json_literals json_escapes fw fe
-       (bytes_of_hex b) (bytes_of_hex k @ [N0]))
+    ((if old then json_find_old else json_find_c) (bytes_of_hex b) (bytes_of_hex k))
 
 let () = iter_lines (fun line ->
   match split_ws line with
-  | ["find"; b; k] -> print_endline (run_find true true b k)
-  | ["old"; "find"; b; k] -> print_endline (run_find false false b k)
+  | ["find"; b; k] -> print_endline (run_find false b k)
+  | ["old"; "find"; b; k] -> print_endline (run_find true b k)
   | ["spec"; "find"; b; k; d] ->
     (match (try Some (parse_doc d) with Bad_doc -> None) with
      | None -> print_endline "bad-doc"
